@@ -1253,3 +1253,46 @@ Theorem C10_go_keyword_content_key_refuted :
     go_generate uc_exec cfg pd = Ok text /\ contains_sub (lit "type interface{}") text = true /\ c10_go_recognise text = None.
 Proof. exact Proofs.C10_GOGrammarIR2.go_keyword_content_key_refuted. Qed.
 Print Assumptions C10_go_keyword_content_key_refuted.
+(* ---------------------------------------------------------------- Swift: the tag / content key of an algebraic enum (fix 29 of /repo) *)
+From TS Require Proofs.C10_SWKeys.
+
+(* swift.rs write_enum / write_enum_variants pass the tag key and the content key through swift_keyword_aware_rename before they are
+   printed as the two cases of ContainerCodingKeys (and as `forKey: .key`): the text of EVERY algebraic enum contains the block
+   `private enum ContainerCodingKeys: String, CodingKey { case <tag>, <content> }` spelled with the keys after that renaming ... *)
+Theorem C10_swift_container_keys_block :
+  forall (e : sw_enum) (tag content : str), swe_tagged e = Some (tag, content) ->
+  exists pre post, sw_render_enum e = (pre ++ Proofs.C10_SWKeys.sw_keys_block tag content ++ post)%list.
+Proof. exact Proofs.C10_SWKeys.sw_render_enum_keys_block. Qed.
+Print Assumptions C10_swift_container_keys_block.
+
+(* ... and for ALL keys that are identifiers and, when they are reserved words of the language, are among SWIFT_KEYWORDS
+   (c10_swg_key_ok; `case`, `default`, `class`, `in` ... included: they are back-ticked - only the reserved words the back end
+   does not list, precedencegroup and the wildcard `_`, are outside), that block followed by a line break is accepted by the
+   recogniser of the Swift declaration grammar as one declaration (an enum with an inheritance clause and one case clause of two
+   cases).  The rest of an algebraic enum's text is not covered by a grammar theorem (C10_swift_layout_grammar_partial). *)
+Theorem C10_swift_container_keys_grammar :
+  forall tag content : str, Proofs.C10_SWKeys.c10_swg_key_ok tag = true -> Proofs.C10_SWKeys.c10_swg_key_ok content = true ->
+  c10_sw_recognise (Proofs.C10_SWKeys.sw_keys_block tag content ++ sw_nl)%list = Some 1%nat.
+Proof. exact Proofs.C10_SWKeys.sw_keys_block_recognised. Qed.
+Print Assumptions C10_swift_container_keys_grammar.
+
+(* regression pin of fix 29 (the class C10-swift-key-keyword - a tag or content key that is a Swift keyword was printed bare: `case case,
+   default`, `forKey: .case` - is FIXED in /repo).  The former witness `#[serde(tag = "case", content = "default")] enum E { A(u8), B }`
+   is in dom_C10 and in no finding class; the model prints exactly k_text (``case `case`, `default` ``, ``forKey: .`case` ``,
+   ``forKey: .`default` ``), which is lexically good and accepted by the recogniser as 2 declarations; the keyword judgement holds of its
+   declarations; the observation reports the BARE keys (the wire keys: the raw value of a back-ticked case is the name without back
+   ticks): tag key 4 times, content key 3 times; the text contains the block of the two theorems above.  The text the unrepaired code
+   printed (the same bytes without back ticks) is lexically good but REJECTED by the recogniser. *)
+Theorem C10_swift_key_keyword_fixed :
+  exists fd,
+    Proofs.C10_SWFile.c10_sw_cfg_ok Proofs.C10_SWKeys.k_cfg = true /\ dom_C10 CSW Proofs.C10_SWKeys.k_prog = true /\
+    known_C10 CSW [] Proofs.C10_SWKeys.k_prog = [] /\
+    sw_generate uc_exec Proofs.C10_SWKeys.k_cfg Proofs.C10_SWKeys.k_prog = Ok Proofs.C10_SWKeys.k_text /\
+    good_C10_lex CSW Proofs.C10_SWKeys.k_text = true /\ c10_sw_recognise Proofs.C10_SWKeys.k_text = Some 2%nat /\
+    sw_file_decls uc_exec Proofs.C10_SWKeys.k_cfg Proofs.C10_SWKeys.k_prog = Ok fd /\ good_C10_kw CSW (fd_decls fd) = true /\
+    List.map d_tag_keys (fd_decls fd) = [[lit "case"; lit "case"; lit "case"; lit "case"]]%list /\
+    List.map d_content_keys (fd_decls fd) = [[lit "default"; lit "default"; lit "default"]]%list /\
+    contains_sub (Proofs.C10_SWKeys.sw_keys_block (lit "case") (lit "default")) Proofs.C10_SWKeys.k_text = true /\
+    good_C10_lex CSW Proofs.C10_SWKeys.k_text_before = true /\ c10_sw_recognise Proofs.C10_SWKeys.k_text_before = None.
+Proof. exact Proofs.C10_SWKeys.swift_key_keyword_fixed. Qed.
+Print Assumptions C10_swift_key_keyword_fixed.
